@@ -35,7 +35,7 @@ var (
 )
 
 type partBStats struct {
-	opens, refusalsRequired, currentOpens, lowered, loweredSucceeded, loweredFailed, panics int
+	opens, refusalsRequired, currentOpens, lowered, loweredSucceeded, loweredFailed, panics, componentOpens int
 	latestTx, latestAddr                                                                    uint32
 	samples                                                                                 []string
 }
@@ -188,6 +188,58 @@ func runPartB(coll *collector) partBStats {
 			}
 			writeRealVersions(db, tv, av)
 			pre := flat(dumpDB(db))
+			// the component openers on their own (a caller that does not go through
+			// wallet.Open): anything but the latest version is refused, read-only
+			{
+				var txErr, addrErr error
+				walletdb.View(db, func(tx walletdb.ReadTx) error {
+					func() {
+						defer func() {
+							if r := recover(); r != nil {
+								txErr = fmt.Errorf("panic: %v", r)
+							}
+						}()
+						_, txErr = wtxmgr.Open(tx.ReadBucket(wtxmgrNsKey), params)
+					}()
+					func() {
+						defer func() {
+							if r := recover(); r != nil {
+								addrErr = fmt.Errorf("panic: %v", r)
+							}
+						}()
+						var m *waddrmgr.Manager
+						m, addrErr = waddrmgr.Open(tx.ReadBucket(waddrmgrNsKey), pub, params)
+						if m != nil {
+							m.Close()
+						}
+					}()
+					return nil
+				})
+				st.componentOpens += 2
+				o := ord
+				comp := func(sig, name string, v, latest uint32, err error) {
+					coll.add(sig, o, func() (string, interface{}) {
+						return fmt.Sprintf("%s.Open with stored version %d (latest %d) returned %v", name, v, latest, err),
+							map[string]interface{}{"kind": "component.Open", "component": name, "stored_version": v, "latest": latest}
+					})
+				}
+				switch {
+				case tv > latestTx && txErr == nil:
+					comp("component-open:newer-version-accepted:wtxmgr", "wtxmgr", tv, latestTx, txErr)
+				case tv < latestTx && txErr == nil:
+					comp("component-open:older-version-accepted:wtxmgr", "wtxmgr", tv, latestTx, txErr)
+				case tv == latestTx && txErr != nil:
+					comp("component-open:current-version-refused:wtxmgr", "wtxmgr", tv, latestTx, txErr)
+				}
+				switch {
+				case av > latestAddr && addrErr == nil:
+					comp("component-open:newer-version-accepted:waddrmgr", "waddrmgr", av, latestAddr, addrErr)
+				case av < latestAddr && addrErr == nil:
+					comp("component-open:older-version-accepted:waddrmgr", "waddrmgr", av, latestAddr, addrErr)
+				case av == latestAddr && addrErr != nil:
+					comp("component-open:current-version-refused:waddrmgr", "waddrmgr", av, latestAddr, addrErr)
+				}
+			}
 			var openErr error
 			panicked := ""
 			func() {
